@@ -168,6 +168,9 @@ def rule_R2(ctx, f):
             x, y = peel(c.args[0]), peel(c.args[1])
             if is_call(x, ["Metric::timestamp_ms", "get_timestamp_ms"]) and is_call(y, ["Metric::timestamp_ms", "get_timestamp_ms"]):
                 tscmp = peel(x[2][0]) == ("param", 2) and peel(y[2][0]) == ("param", 3)
+        if ok and not valcmp and _value_cmp_find_form(f, cl, zips[0]):
+            valcmp = True
+            vals = vals + [None, None]
         if not (ok and valcmp and tscmp):
             ch = _comparator_chain(f, cl)
             if ch:
@@ -178,6 +181,37 @@ def rule_R2(ctx, f):
         ctx.ob(rid, "comparator|timestamp-fallback", tscmp, "equal label values must fall back to m1.timestamp.cmp(m2.timestamp)", site=cl.raw["span"]["at"])
         # values compared by != before cmp must be the same pair (no early Equal on other data)
         ctx.floor(rid, "LabelPair::value reads in the comparator", len(vals), 2)
+
+
+def _value_cmp_find_form(f, cl, z):
+    """`zip.map(|(lp1, lp2)| lp1.value().cmp(lp2.value())).find(|o| o.is_ne())` with the found ordering returned: the first difference in position order decides."""
+    def closure_of(t):
+        t = peel(t, transparent=[])
+        return f.closure(t[2]) if (isinstance(t, tuple) and t and t[0] == "agg" and t[1] == "closure") else None
+    r0 = cl.term_local(0)
+    rets = cl.var_alts(r0[1]) if isinstance(r0, tuple) and r0 and r0[0] == "var" else [r0]
+    for c in cl.calls_to("Iterator::find"):
+        src = peel(c.args[0], transparent=[])
+        if not is_call(src, "Iterator::map") or peel(src[2][0], transparent=[]) != z.result_term():
+            continue
+        mc, pc = closure_of(src[2][1]), closure_of(c.args[1])
+        if mc is None or pc is None:
+            continue
+        r = peel(mc.term_local(0), transparent=[])
+        if not (is_call(r, "Ord::cmp") and len(mc.calls()) == 3):
+            continue
+        x, y = peel(r[2][0]), peel(r[2][1])
+        if not (is_call(x, ["LabelPair::value", "get_value"]) and is_call(y, ["LabelPair::value", "get_value"])
+                and peel(x[2][0]) == ("field", ("param", 2), "0") and peel(y[2][0]) == ("field", ("param", 2), "1")):
+            continue
+        rp = peel(pc.term_local(0), transparent=[])
+        isne = is_call(rp, "Ordering::is_ne") and peel(rp[2][0]) in (("param", 2), ("deref", ("param", 2))) and len(pc.calls()) == 1
+        if not isne:
+            continue
+        found = ("field", ("downcast", c.result_term(), "Some"), "0")
+        if any(peel(a) == found for a in rets):
+            return True
+    return False
 
 
 def _comparator_chain(f, cl):
